@@ -1,8 +1,182 @@
-import NdnVerif.C11.Model
-import NdnVerif.C11.Spec
+/-
+  C11 — property theorems (only).  Helper lemmas: `Lemmas.lean`.
+
+  Reading guide.  `run init chunks` is the model of `readTlvStream` driven by a reader that returns
+  the chunks one after the other (a chunk larger than the free space of the receive buffer is
+  handed over in several reads — reads are bounded by the free space) and then reports EOF.
+  `Admissible blocks`: every block is a well-formed TLV (shortest-form T and L, |V| = L) of at
+  most 8800 bytes.  There is no bound on the number of blocks, the total length or the number
+  and sizes of the chunks.
+-/
+import NdnVerif.C11.Lemmas
 namespace Ndn.C11
 
-theorem parseLoop_nil : parseLoop [] = ([], [], .more) := by
-  rw [parseLoop]; simp [decTL]
+/-- **C11, main clause.**  For EVERY list of admissible blocks and EVERY way of cutting their
+    concatenation into reads — one byte at a time, many blocks per read, reads ending inside a
+    type or length field, even empty reads — `readTlvStream` hands up exactly the blocks, byte
+    identical, in order, none lost / duplicated / split / merged, never reports an error, never
+    stalls for lack of buffer space, and returns nil at EOF. -/
+theorem stream_refines_blocks (blocks : List Bytes) (chunks : List Bytes)
+    (hadm : Admissible blocks) (hcut : chunks.flatten = blocks.flatten) :
+    run init chunks = (blocks, Outcome.eof) := by
+  have hwf := blk_of_admissible hadm
+  obtain ⟨k, u', hrun, hu', hl⟩ :=
+    run_stream_prefix (scriptSize chunks) chunks init blocks [] (Nat.le_refl _) hwf (inv_init blocks hwf)
+      (by simpa [init] using hcut)
+  have hk : blocks.drop k = [] := by
+    cases hd : blocks.drop k with
+    | nil => rfl
+    | cons b tl =>
+      exfalso
+      have h1 := hl b tl hd
+      rw [hd] at hu'
+      simp at hu'
+      have : u'.length = b.length + tl.flatten.length := by rw [hu']; simp
+      omega
+  have : blocks.take k = blocks := by
+    have := List.take_append_drop k blocks
+    rw [hk, List.append_nil] at this; exact this
+  rw [hrun, this]
+
+/-- non-vacuity: two admissible blocks (a 1-byte-length and a 3-byte-type one), cut inside T and L -/
+example : run init [[6], [2, 1], [2, 0xfd, 3], [0x20, 1, 7], []] = ([[6, 2, 1, 2], [0xfd, 3, 0x20, 1, 7]], Outcome.eof) :=
+  stream_refines_blocks [[6, 2, 1, 2], [0xfd, 3, 0x20, 1, 7]] _
+    (by
+      intro b hb
+      simp at hb
+      rcases hb with rfl | rfl
+      · exact ⟨⟨6, [1, 2], by decide, by decide⟩, by decide⟩
+      · exact ⟨⟨0x320, [7], by decide, by decide⟩, by decide⟩)
+    (by decide)
+
+/-- **C11, prompt delivery (refinement of the abstract receiver after every read).**  At any moment
+    — `chunks` received so far, `later` still to come — the frames handed up so far are exactly the
+    blocks completely contained in the bytes received so far (`completeBlocks`): a block is handed
+    up by the very read that completes it, and moving unread bytes to the front of the buffer
+    never corrupts the partial block that stays behind. -/
+theorem stream_prompt (blocks : List Bytes) (chunks later : List Bytes)
+    (hadm : Admissible blocks) (hcut : (chunks ++ later).flatten = blocks.flatten) :
+    (run init chunks).1 = completeBlocks blocks chunks.flatten.length := by
+  have hwf := blk_of_admissible hadm
+  obtain ⟨k, u', hrun, hu', hl⟩ :=
+    run_stream_prefix (scriptSize chunks) chunks init blocks later.flatten (Nat.le_refl _) hwf
+      (inv_init blocks hwf) (by simpa [init] using hcut)
+  rw [hrun]
+  symm
+  apply completeBlocks_take blocks k _ u' _ hl
+  have h1 : chunks.flatten ++ later.flatten = (blocks.take k).flatten ++ (u' ++ later.flatten) := by
+    have e : (blocks.take k).flatten ++ (blocks.drop k).flatten = blocks.flatten := by
+      rw [← List.flatten_append, List.take_append_drop]
+    rw [hu', e, ← List.flatten_append]; exact hcut
+  have h2 : chunks.flatten = (blocks.take k).flatten ++ u' := by
+    rw [← List.append_assoc] at h1
+    exact List.append_cancel_right h1
+  rw [h2]; simp
+
+example : (run init [[6, 2, 1], [2, 0xfd]]).1 = [[6, 2, 1, 2]] := by
+  rw [stream_prompt [[6, 2, 1, 2], [0xfd, 3, 0x20, 1, 7]] [[6, 2, 1], [2, 0xfd]] [[3, 0x20, 1, 7]]
+    (by
+      intro b hb
+      simp at hb
+      rcases hb with rfl | rfl
+      · exact ⟨⟨6, [1, 2], by decide, by decide⟩, by decide⟩
+      · exact ⟨⟨0x320, [7], by decide, by decide⟩, by decide⟩)
+    (by decide)]
+  decide
+
+/-- **C11, buffer space.**  Between two reads of an admissible stream nothing is parked in front of
+    the unread bytes and fewer than `MaxNDNPacketSize` bytes are unread, so every `Read` is offered
+    more than `len(recvBuf) - MaxNDNPacketSize` (= 31 packets) of space: the reader never starves,
+    however long the stream. -/
+theorem stream_buffer_invariant (blocks : List Bytes) (hadm : Admissible blocks)
+    (s : St) (c R : Bytes) (h : s.unread ++ (c ++ R) = blocks.flatten) :
+    (onRead s c).1.tlvOff = 0 ∧ (onRead s c).1.unread.length < maxPkt ∧
+    cap - maxPkt < (onRead s c).1.free := by
+  have hwf := blk_of_admissible hadm
+  obtain ⟨k, _, _, hi, _⟩ := onRead_stream s blocks hwf c R h
+  have hwf' : ∀ b ∈ blocks.drop k, Blk b := fun b hb => hwf b (List.mem_of_mem_drop hb)
+  exact ⟨hi.1, hi.unread_lt hwf', hi.free_pos hwf'⟩
+
+example : (onRead init [6, 2, 1]).1.tlvOff = 0 ∧ (onRead init [6, 2, 1]).1.unread.length < maxPkt ∧
+    cap - maxPkt < (onRead init [6, 2, 1]).1.free :=
+  stream_buffer_invariant [[6, 2, 1, 2]] (by
+      intro b hb
+      simp at hb
+      subst hb
+      exact ⟨⟨6, [1, 2], by decide, by decide⟩, by decide⟩) init [6, 2, 1] [2] (by decide)
+
+/-- **C11, application-side counterpart** (`std/engine/face/stream_face.go` `StreamFace.Run`: read T,
+    read L, read exactly L bytes).  Same statement: for every admissible block list and every
+    chunking, the packets handed to the engine are exactly the blocks, in order, byte-identical. -/
+theorem app_refines_blocks (blocks : List Bytes) (chunks : List Bytes)
+    (hadm : Admissible blocks) (hcut : chunks.flatten = blocks.flatten) :
+    appRun [] chunks = (blocks, Outcome.eof) := by
+  have hwf := blk_of_admissible hadm
+  have hl0 : ∀ b tl, blocks = b :: tl → ([] : Bytes).length < b.length := by
+    intro b tl hb
+    have := wf_length_pos (hwf b (by rw [hb]; simp)).1
+    simp; omega
+  obtain ⟨k, u', hrun, hu', hl⟩ := appRun_stream_prefix chunks [] blocks [] hwf hl0 (by simpa using hcut)
+  have hk : blocks.drop k = [] := by
+    cases hd : blocks.drop k with
+    | nil => rfl
+    | cons b tl =>
+      exfalso
+      have h1 := hl b tl hd
+      rw [hd] at hu'
+      simp at hu'
+      have : u'.length = b.length + tl.flatten.length := by rw [hu']; simp
+      omega
+  have : blocks.take k = blocks := by
+    have := List.take_append_drop k blocks
+    rw [hk, List.append_nil] at this; exact this
+  rw [hrun, this]
+
+example : appRun [] [[6], [2, 1], [2, 0xfd, 3], [0x20, 1, 7]] = ([[6, 2, 1, 2], [0xfd, 3, 0x20, 1, 7]], Outcome.eof) :=
+  app_refines_blocks [[6, 2, 1, 2], [0xfd, 3, 0x20, 1, 7]] _
+    (by
+      intro b hb
+      simp at hb
+      rcases hb with rfl | rfl
+      · exact ⟨⟨6, [1, 2], by decide, by decide⟩, by decide⟩
+      · exact ⟨⟨0x320, [7], by decide, by decide⟩, by decide⟩)
+    (by decide)
+
+/-- application side, after every chunk: exactly the completely received blocks were handed up -/
+theorem app_prompt (blocks : List Bytes) (chunks later : List Bytes)
+    (hadm : Admissible blocks) (hcut : (chunks ++ later).flatten = blocks.flatten) :
+    (appRun [] chunks).1 = completeBlocks blocks chunks.flatten.length := by
+  have hwf := blk_of_admissible hadm
+  have hl0 : ∀ b tl, blocks = b :: tl → ([] : Bytes).length < b.length := by
+    intro b tl hb
+    have := wf_length_pos (hwf b (by rw [hb]; simp)).1
+    simp; omega
+  obtain ⟨k, u', hrun, hu', hl⟩ :=
+    appRun_stream_prefix chunks [] blocks later.flatten hwf hl0 (by simpa using hcut)
+  rw [hrun]
+  symm
+  apply completeBlocks_take blocks k _ u' _ hl
+  have h1 : chunks.flatten ++ later.flatten = (blocks.take k).flatten ++ (u' ++ later.flatten) := by
+    have e : (blocks.take k).flatten ++ (blocks.drop k).flatten = blocks.flatten := by
+      rw [← List.flatten_append, List.take_append_drop]
+    rw [hu', e, ← List.flatten_append]; exact hcut
+  have h2 : chunks.flatten = (blocks.take k).flatten ++ u' := by
+    rw [← List.append_assoc] at h1
+    exact List.append_cancel_right h1
+  rw [h2]; simp
+
+example : (appRun [] [[6, 2, 1], [2, 0xfd]]).1 = [[6, 2, 1, 2]] := by
+  rw [app_prompt [[6, 2, 1, 2], [0xfd, 3, 0x20, 1, 7]] [[6, 2, 1], [2, 0xfd]] [[3, 0x20, 1, 7]]
+    (by
+      intro b hb
+      simp at hb
+      rcases hb with rfl | rfl
+      · exact ⟨⟨6, [1, 2], by decide, by decide⟩, by decide⟩
+      · exact ⟨⟨0x320, [7], by decide, by decide⟩, by decide⟩)
+    (by decide)]
+  decide
+
+/-- the model constants agree with the protocol constant the property names -/
+theorem consts_agree : maxPkt = specMaxPkt ∧ maxPkt < cap := by decide
 
 end Ndn.C11
